@@ -132,6 +132,15 @@ def curated_items():
         "t1": T(items=2, conc=1, next=[dict(when="succeeded", do=["t3"])]),
         "t2": T(next=[dict(when="failed", do=["t4"]), dict(when="succeeded", do=["t3"])]),
         "t3": T(), "t4": T()}, fates={"t1": ["s"], "t2": A, "t3": ["s"], "t4": ["s"]}))
+    out.append(D.wf("items_join1_then_fail", {
+        "t1": T(next=[dict(when="succeeded", do=["t3"])]),
+        "t2": T(next=[dict(when="succeeded", do=["t3"])]),
+        "t3": T(join=1, items=2, conc=1, next=[dict(when="succeeded", do=["t4"])]), "t4": T()},
+        fates={"t1": ["s"], "t2": A, "t3": ["s"], "t4": ["s"]}))
+    out.append(D.wf("items_chain", {
+        "t1": T(next=[dict(when="succeeded", pub=[["x", "res"]], do=["t2"])]),
+        "t2": T(items=2, conc=1, next=[dict(when="succeeded", do=["t3"])]),
+        "t3": T()}, vars=[["x", 0]], fates={"t1": ["s"], "t2": ["s"], "t3": A}))
     out.append(D.wf("items_abends", {
         "t1": T(items=2, next=[dict(when="succeeded", do=["t2"])]), "t2": T()},
         fates={"t1": ["s", "t", "a"], "t2": ["s"]}))
